@@ -20,7 +20,11 @@ RULE = (
     "per assignment, and for each assignment EVERY schedule (depth-first enumeration by prefix replay; a case is one "
     "assignment + one schedule-prefix bucket, the buckets partition the schedule tree). sampled: Hypothesis draws 2..3 peers x "
     "1..3 messages over {ping, version, verack, inv, addr, unknown command} with a schedule. walks-3x2: all 729 class "
-    "assignments of 3 peers x 2 messages, each with schedules whose choices are digits of a hash (deterministic). Histogram labels starting "
+    "assignments of 3 peers x 2 messages, each with schedules whose choices are digits of a hash (deterministic). line-preempt: the same "
+    "assignments as `exhaustive`, but EVERY source line a receive thread executes inside a method of Node is a scheduling point "
+    "as well (sys.settrace in the receive threads): for each starting thread, every schedule with at most 1 (quick) / 2 "
+    "(thorough) context switches before a thread finishes, at any point and to any other runnable thread. line-sampled: "
+    "Hypothesis draws 2..3 peers x 1..3 messages and 1..4 context switches at line granularity. Histogram labels starting "
     "with 'exec' / 'nt:exec' count executions (one label per executed schedule), 'case:' labels count cases. "
     "Non-trivial execution: while a thread is between the first and the last step of processing one handled message, "
     "another thread performs a step of a message that has to end up queued (nt:exec/queued-message-step-inside-handled-"
@@ -32,7 +36,8 @@ RULE = (
 )
 ASSUMPTIONS = [
     "vf/ref/p2pwire.py (message envelope, ping/inv/addr/version layouts; validated against the protocol documentation's verack and version examples) is correct",
-    "thread interleaving is modelled at the granularity named in the property: deque operations on Node._msg_queue, the membership test on Node._registered_commands_to_handle, and socket sends are atomic steps; everything else a receive thread does is thread-local",
+    "targets exhaustive / sampled / walks-3x2 model interleaving at the granularity named in the property: deque operations on Node._msg_queue (walking it: one step per element), the membership test on Node._registered_commands_to_handle, and socket sends are atomic steps; everything else a receive thread does is treated as thread-local there",
+    "targets line-preempt / line-sampled drop that assumption for the code of Node itself: a switch can happen before any source line of a Node method (statements are atomic, as are calls into helpers outside Node); they bound the number of context switches instead",
     "the parsed payload a message should carry is what the library's own parse_payload returns for it sequentially (payload parsing is property C17's subject); version payloads use the library's own dialect (16 ASCII bytes in the address fields)",
     "commands handled automatically = version and ping (required by the statement) plus whatever else a fresh Node registers (verack)",
 ]
@@ -359,8 +364,8 @@ def _norm_peers(peers):
     return [[(str(k), int(s)) for k, s in msgs] for msgs in peers]
 
 
-def run_one(p2p, plan, schedule):
-    ex = S.run_node(p2p, plan.wire, schedule)
+def run_one(p2p, plan, schedule, preempt=None, lines=False):
+    ex = S.run_node(p2p, plan.wire, schedule, preempt=preempt, lines=lines)
     labels = features(ex.sched.trace, plan.handled)
     fails = judge(plan, ex)
     if fails:
@@ -492,6 +497,82 @@ def check_walks(case):
     return classes, f
 
 
+def explore_preempt(p2p, plan, first, depth, classes, found):
+    """Line granularity: every schedule in which thread `first` starts and at most `depth` context switches happen before
+    a thread has finished (each at any scheduling point - source line of a Node method, queue/membership/socket
+    operation - and to any other runnable thread); between switches the running thread keeps running. Returns the
+    number of executions."""
+    stack = [({0: first}, 1, depth)]
+    nexec = 0
+    while stack:
+        pre, lo, d = stack.pop()
+        ex, labels, fails = run_one(p2p, plan, (), preempt=pre, lines=True)
+        nexec += 1
+        classes.extend(labels)
+        classes.append(f"exec/switches-{len(pre) - 1}")
+        counts, choices = ex.sched.counts, ex.sched.choices
+        for sig, detail in fails:
+            cur = found.get(sig)
+            if cur is None:
+                found[sig] = [1, len(pre), detail, dict(pre), render(ex.sched.trace)[-600:]]
+            else:
+                cur[0] += 1
+                if len(pre) < cur[1]:
+                    cur[1:] = [len(pre), detail, dict(pre), render(ex.sched.trace)[-600:]]
+        if found and nexec >= EARLY_STOP:
+            classes.append("exec/bucket-truncated-after-failures")
+            break
+        if d > 0:
+            for s in range(lo, len(counts)):
+                for c in range(counts[s]):
+                    if c != choices[s]:
+                        nxt = dict(pre)
+                        nxt[s] = c
+                        stack.append((nxt, s + 1, d - 1))
+    return nexec
+
+
+def check_line_preempt(case):
+    p2p = _lib()
+    peers = _norm_peers(case["peers"])
+    classes, found = [], {}
+    with _Magic(p2p):
+        plan = Plan(p2p, peers)
+        if plan.skip:
+            return ["skip:library-parse-raises"], []
+        nexec = explore_preempt(p2p, plan, int(case["first"]), int(case["depth"]), classes, found)
+    classes.extend(_case_labels(peers))
+    f = Fails()
+    for sig in sorted(found):
+        cnt, _, detail, pre, tr = found[sig]
+        f.add(sig, f"{cnt}/{nexec} schedules; e.g. first={case['first']} switches(step->choice)={ {k: v for k, v in pre.items() if k} } :: {detail} | ...{tr}")
+    return classes, f
+
+
+def check_line_sampled(case):
+    """One assignment, one schedule given by its context switches (line granularity)."""
+    p2p = _lib()
+    peers = _norm_peers(case["peers"])
+    pre = {0: int(case["first"])}
+    for s, c in case["switches"]:
+        pre[int(s)] = int(c)
+    with _Magic(p2p):
+        plan = Plan(p2p, peers)
+        if plan.skip:
+            return ["skip:library-parse-raises"], []
+        ex, labels, fails = run_one(p2p, plan, (), preempt=pre, lines=True)
+    classes = _case_labels(peers) + labels
+    n = _preemptions(ex.sched.trace)
+    classes.append(f"exec/preemptions-{min(n, 4)}{'+' if n >= 4 else ''}")
+    f = Fails()
+    seen = set()
+    for sig, detail in fails:
+        if sig not in seen:
+            seen.add(sig)
+            f.add(sig, f"{detail} | switches={pre} trace=...{render(ex.sched.trace)[-600:]}")
+    return classes, f
+
+
 # --------------------------------------------------------------------------- case generation
 
 
@@ -551,6 +632,32 @@ def exhaustive_2x3_cases(tier):
     return _balanced(cases)
 
 
+def line_cases(tier):
+    """Assignments of the exhaustive scope x starting thread; depth = number of context switches enumerated."""
+    cases = []
+    a = 0
+    for words in itertools.product(_words("RSQ", 1, 2), repeat=2):  # 144
+        for first in range(2):
+            cases.append({"scope": "2x1..2", "classes": "|".join(words), "peers": _concrete(words, a), "first": first, "depth": 1 if tier == "quick" else 2,
+                          "_w": sum(CLASS_WEIGHT[c] for wd in words for c in wd)})
+        a += 1
+    for words in itertools.product(_words("RSQ", 1, 1), repeat=3):  # 27
+        for first in range(3):
+            cases.append({"scope": "3x1", "classes": "|".join(words), "peers": _concrete(words, a), "first": first, "depth": 1 if tier == "quick" else 2,
+                          "_w": 2 * sum(CLASS_WEIGHT[c] for wd in words for c in wd)})
+        a += 1
+    return _balanced(cases)
+
+
+@st.composite
+def line_sampled_cases(draw):
+    n = draw(st.integers(2, 3))
+    peers = [draw(st.lists(_MSG, min_size=1, max_size=3)) for _ in range(n)]
+    k = draw(st.integers(1, 4))
+    switches = sorted({draw(st.integers(1, 60 * n)): draw(st.integers(0, n - 1)) for _ in range(k)}.items())
+    return {"peers": peers, "first": draw(st.integers(0, n - 1)), "switches": [list(x) for x in switches]}
+
+
 def walks_3x2_cases(tier):
     """3 peers x 2 messages: all 729 class assignments, hash-derived schedules (too many to enumerate)."""
     cases = []
@@ -599,6 +706,24 @@ def targets(tier):
             required=[NT, "exec", "case:msgs-2x2x2"],
         ),
     ]
+    ts.append(
+        Target(
+            "line-preempt",
+            check_line_preempt,
+            enumerate_=line_cases,
+            required=[NT, "exec", "exec/switches-0", "exec/switches-1", "case:peers-2", "case:peers-3"] + ["kind:" + k for k in KINDS],
+            exhaustive=True,
+        )
+    )
+    ts.append(
+        Target(
+            "line-sampled",
+            check_line_sampled,
+            strategy=lambda tier: line_sampled_cases(),
+            budget={"quick": 4000, "thorough": 60000},
+            required=[NT, "case:peers-2", "case:peers-3"],
+        )
+    )
     if tier == "thorough":
         ts.append(
             Target(
@@ -614,11 +739,12 @@ def targets(tier):
 
 def evidence_extra(tier):
     scopes = ["2 peers x 1..2 messages (144 class assignments)", "3 peers x 1 message (27 class assignments)"]
+    line = "target line-preempt: the same assignments at source-line granularity, every schedule with <= %d context switches per starting thread. " % (1 if tier == "quick" else 2)
     if tier == "thorough":
         scopes.append("2 peers x 3 messages over classes {handled-with-reply, queued} (64 class assignments)")
     return {
         "exhaustive": True,
         "exhaustive_scope": "every schedule of: " + "; ".join(scopes)
         + ". Executions = class_histogram['<target>/exec']; every execution is a distinct schedule (depth-first enumeration "
-        "of the choice tree, buckets partition it). Scopes beyond that (targets sampled, walks-3x2) are sampled.",
+        "of the choice tree, buckets partition it). " + line + "Scopes beyond that (targets sampled, walks-3x2, line-sampled) are sampled.",
     }
